@@ -34,7 +34,7 @@ from .c05b import witness, _where
 from .c09b import H9, entry_weights, _s
 
 WIT = [witness(55), witness(56)]
-POS = {'sig', 'gam', 'lam', 'e0', 'e1', 'e2', 'e3', 'e4', 'e5', 'dd', 'w',
+POS = {'sig', 'gam', 'lam', 'r0', 'r1', 'e0', 'e1', 'e2', 'e3', 'e4', 'e5', 'dd', 'w',
        'w0', 'w1', 'w2', 'w3', 'w4', 'w5', 'p0', 'p1', 'q'}
 
 
@@ -111,6 +111,8 @@ class H7(H9):
                 return {'Lt': False, 'LtE': True, 'Gt': False, 'GtE': True,
                         'eq0': True}[k]
             sg = PA.rat_sign(r, self.signs)
+            if sg is None:
+                sg = PA.const_sign(r)
             if sg is None and k == 'eq0':
                 return False              # generic parameters
             if sg is None:
@@ -125,6 +127,8 @@ class H7(H9):
         if d.is_zero():
             return x
         sg = PA.rat_sign(d, self.signs)
+        if sg is None:
+            sg = PA.const_sign(d)
         if sg is None:
             raise Undecided('max / min of %r and %r' % (x, y))
         big, small = (x, y) if sg > 0 else (y, x)
@@ -207,6 +211,19 @@ def spaces():
     return X
 
 
+def mk_point(dom, entries):
+    it = iter(entries)
+
+    def mk(space):
+        if isinstance(space, NPSpace):
+            return NPElem(space, [mk(p) for p in space.parts])
+        a = _np.empty(space.shape, dtype=object)
+        for idx in _np.ndindex(*space.shape):
+            a[idx] = next(it)
+        return NElem(space, NA(a, space.dt))
+    return mk(dom)
+
+
 def point(space, entries):
     a = _np.empty(space.shape, dtype=object)
     for k, idx in enumerate(_np.ndindex(*space.shape)):
@@ -275,6 +292,21 @@ def builders(model):
         lambda I: inst(I, 'IndicatorSumConstraint', NPSpace(
             [NSpace((2,), 'float64'), NSpace((2,), 'float64')])), gen,
         ('sum', Rat.const(1)))
+    # group norm on a power space whose weights are squares r_i^2 of
+    # positive symbols, at points whose pointwise norms are 5 sigma and
+    # 3 sigma (both well beyond the threshold)
+    r0, r1 = S('r0'), S('r1')
+    for wt, t in ((None, 'pspace'), ([r0 * r0, r1 * r1],
+                                     'pspace weights r0^2, r1^2'),
+                  ([Rat.const(4), Rat.const(9)], 'pspace weights 4, 9')):
+        a0 = Rat.const(1) if wt is None else (r0 if t.endswith('2') else 2)
+        a1 = Rat.const(1) if wt is None else (r1 if t.endswith('2') else 3)
+        B['GroupL1Norm[%s]' % t] = (
+            lambda I, wt=wt: inst(I, 'GroupL1Norm', NPSpace(
+                [NSpace((2,), 'float64', S('w')),
+                 NSpace((2,), 'float64', S('w'))], wt)),
+            [3 * sig / a0, 3 * sig / a0, 4 * sig / a1, Rat.const(0)],
+            'smooth')
     B['IndicatorSumConstraint[product space 1 + 3]'] = (
         lambda I: inst(I, 'IndicatorSumConstraint', NPSpace(
             [NSpace((1,), 'float64'), NSpace((3,), 'float64')])), gen,
@@ -317,7 +349,7 @@ def run_projection(model, build, entries, kind):
             if hi is not None and PA.rat_sign(PA.reduce_full(xv - hi),
                                               H.signs) == 1:
                 want = hi
-            if not PA.equal_exact(pv, want, WIT):
+            if not PA.same(pv, want, WIT):
                 probs.append('entry %d: x = %s is mapped to %s, the nearest '
                              'point of the interval is %s'
                              % (j, _s(xv), _s(pv), _s(want)))
@@ -325,13 +357,13 @@ def run_projection(model, build, entries, kind):
         tot = Rat.const(0)
         for pv in ps:
             tot = tot + pv
-        if not PA.equal_exact(tot, kind[1], WIT):
+        if not PA.same(tot, kind[1], WIT):
             probs.append('the entries of the result sum to %s, the '
                          'constraint value is %s' % (_s(PA.reduce_full(tot)),
                                                      _s(kind[1])))
         base = ws[0] * (xs[0] - ps[0])
         for j in range(1, len(ps)):
-            if not PA.equal_exact(ws[j] * (xs[j] - ps[j]), base, WIT):
+            if not PA.same(ws[j] * (xs[j] - ps[j]), base, WIT):
                 probs.append('x - p is not normal to the constraint plane '
                              'in the space inner product (entries 0 and %d)'
                              % j)
@@ -369,32 +401,24 @@ def run_one(model, build, entries):
     I = I7(model, {}, H)
     f = build(I)
     dom = I.getattr_value(f, 'domain')
-    x = point(dom, entries)
+    x = mk_point(dom, entries)
     sig = S('sig')
     prox = I.call(I.getattr_value(f, 'proximal'), [sig], {})
-    p = I.call(prox, [point(dom, entries)], {})
+    p = I.call(prox, [mk_point(dom, entries)], {})
     if isinstance(p, NA):
         p = H.element(I, dom, p)
     ps = flat(p)
     xs = [PA.ired(to_rat(v)) for v in entries]
     ws = entry_weights(dom)
-    # f at y = p + t
-    ts = ['t%d' % j for j in range(len(ps))]
-    H.infinitesimal = set(ts)
-    y = point(dom, [pj + S(t) for pj, t in zip(ps, ts)])
-    fy = PA.ired(to_rat(I.call(f, [y], {})))
-    zero = {t: Rat.const(0) for t in ts}
+    Gs, fy = partials_at(H, I, f, dom, ps)
     probs = []
-    for j, t in enumerate(ts):
-        G = mdiff.diff(fy, t, sgn=True)
-        H.nfree = 0
-        G0 = PA.reduce_full(mdiff.deep_subs(G, zero, H.rebuild))
+    for j, G0 in enumerate(Gs):
         lhs = ws[j] * (xs[j] - ps[j])
         E = PA.reduce_full(lhs - sig * G0)
         free = [v for v in E.vars() if isinstance(v, str)
                 and v.startswith('sfree')]
         if not free:
-            if not PA.equal_exact(lhs, sig * G0, WIT):
+            if not PA.same(lhs, sig * G0, WIT):
                 probs.append('entry %d: p = %s, but w (x - p) / sigma = %s '
                              'while df/dy(p) = %s' % (j, _s(ps[j]),
                                                       _s(lhs / sig), _s(G0)))
@@ -430,6 +454,11 @@ def run(rep, model):
                 probs, ps, fy = run_one(model, b, entries)
         except (Undecided, Fork) as e:
             rep.undecided('R6', name, str(e), rel)
+            continue
+        except ZeroDivisionError:
+            rep.undecided('R6', name, 'the result sits at a point where the '
+                          'value is not differentiable (division by zero in '
+                          'the symbolic derivative)', rel)
             continue
         except NotAnElement as e:
             rep.violation('R6', name, 'a call yields no element: %s' % e, rel)
